@@ -79,6 +79,8 @@ class _SeedSpy:
         for kind, v, nsamples in self.calls:
             if kind != "numpy":
                 continue
+            if v is None:
+                continue  # fresh operating-system entropy, not a state
             if v in first_use and nsamples > first_use[v]:
                 bad.append((v, first_use[v], nsamples))
             first_use.setdefault(v, nsamples)
@@ -109,7 +111,7 @@ def strat_std(draw, tier):
     return {"model": {"family": fam, "params": params, "exp": {"spot": draw(_f(10.0, 200.0)), "r": draw(_f(0.0, 0.08)),
                                                                 "d": draw(_f(0.0, 0.05))}},
             "paths": draw(st.integers(4, 48)), "mode": draw(st.sampled_from(["fixed-dates", "jump-times"])),
-            "seed": draw(st.sampled_from([None, 7, 12345, 2 ** 31 - 1])), "prior": [draw(st.integers(0, 50)), draw(st.integers(51, 300))],
+            "seed": draw(st.sampled_from([None, 0, 7, 12345, 2 ** 31 - 1])), "prior": [draw(st.integers(0, 50)), draw(st.integers(51, 300))],
             "maturity": draw(_f(0.1, 2.0)), "clock_step": draw(st.sampled_from([0.0, 0.0, 0.4, 2.0]))}
 
 
@@ -165,6 +167,16 @@ def body_std(case):
         out.append(Violation(f"{tag}/same-seed-different-results",
                              f"seed={case['seed']}: first samples {a[:3]} vs {b[:3]} after consuming "
                              f"{case['prior'][0]} / {case['prior'][1]} variates beforehand; {detail}"))
+    if case["seed"] is None:
+        # a third run, unseeded like the first and started at the same clock reading (same second, same process): it must
+        # not be re-seeded to the state that produced the first run's samples
+        c, spy_c, _ = _run_std(case, case["prior"][1], clock_step=case["clock_step"])
+        # (a payoff that does not depend on the variates - no jumps before the maturity - repeats anyway)
+        if (len(np.unique(a)) > 1 and np.array_equal(a, c)) or [v for k_, v, _ in spy_a.calls if k_ == "numpy" and v is not None and
+                                    any(k2 == "numpy" and v2 == v for k2, v2, _ in spy_c.calls)]:
+            out.append(Violation(f"{tag}/unseeded-run-re-seeded-to-the-state-of-an-earlier-run",
+                                 f"two unseeded runs started at the same clock reading: seed calls {spy_a.calls[:3]} and "
+                                 f"{spy_c.calls[:3]}, first samples {a[:3]} vs {c[:3]}; {detail}"))
     for name, arr, spy, left in (("first", a, spy_a, left_a), ("second", b, spy_b, left_b)):
         if case["mode"] == "fixed-dates" and len(np.unique(arr)) != len(arr):
             out.append(Violation(f"{tag}/two-samples-share-their-variates",
@@ -188,6 +200,196 @@ def body_std(case):
 def classify_std(case):
     return [case["model"]["family"], case["mode"], "seeded" if case["seed"] is not None else "unseeded",
             f"clock_step={case['clock_step']}"], True
+
+
+# ------------------------------------------------------------------------------------ pre-drawn variates of the fixed-date simulators
+@st.composite
+def strat_predrawn(draw, tier):
+    from props import c03
+
+    kind = draw(st.sampled_from(["levy-1d", "chain-1d", "coupling-1d", "chain-copula", "coupling-copula"]))
+    dates = draw(st.sampled_from([{"T": 0.25, "asian": False}, {"T": 1.0, "asian": False}, {"T": 0.5, "asian": True},
+                                  {"T": 1.0, "asian": True}]))
+    def with_sigma():
+        from vlib.models import FAMILIES
+
+        fam = draw(st.sampled_from(["merton", "hem"]))
+        params = draw(FAMILIES[fam]())
+        params["sigma"] = draw(_f(0.05, 0.4))
+        return {"family": fam, "exp": None, "params": params}
+
+    if kind.endswith("copula"):
+        case = draw(c03.strat_copula(tier))
+        # at least one margin with a diffusion part (otherwise the Brownian rows do not show in the path)
+        k = draw(st.integers(0, len(case["margins"]) - 1))
+        if not any(m["params"].get("sigma") and m["family"] in ("merton", "hem") for m in case["margins"]):
+            new = with_sigma()
+            new["exp"] = case["margins"][k].get("exp")
+            case["margins"][k] = new
+    else:
+        case = draw(c03.strat_1d(tier))
+        if not (case["model"]["params"].get("sigma") and case["model"]["family"] in ("merton", "hem", "bs")):
+            new = with_sigma()
+            new["exp"] = case["model"].get("exp")
+            case["model"] = new
+    case.update({"kind": kind, "dates": dates, "paths": draw(st.integers(2, 6)), "seed": draw(st.sampled_from([3, 77]))})
+    return case
+
+
+def _time_axis(arr, nb):
+    ax = [k for k, n in enumerate(arr.shape) if n == nb + 1]
+    return ax[-1] if ax else None
+
+
+def body_predrawn(case):
+    import copy
+    from collections import deque
+
+    from props import c03
+    from props.c01 import build_copula_grid
+    from rpylib.distribution.sampling import SamplingMethod
+    from rpylib.process.coupling.couplinglevycopula import CouplingProcessLevyCopula
+    from rpylib.process.coupling.couplingmarkovchain import CouplingMarkovChain
+    from rpylib.process.levyprocess import LevyProcess
+    from rpylib.process.markovchain.markovchain import MarkovChainProcess
+    from rpylib.process.markovchain.markovchainlevycopula import MarkovChainLevyCopula
+    from vlib.grids import GridRejected, build_grid
+    from vlib.models import build_copula_model
+
+    out = []
+    kind, n = case["kind"], case["paths"]
+    product = c03._product_with_dates(case["dates"])
+    tg = np.asarray(product.times_grid(), dtype=float)
+    nb = len(tg) - 1
+    sq = np.sqrt(np.diff(tg))
+    coupled = kind.startswith("coupling")
+    try:
+        if kind.endswith("copula"):
+            model = build_copula_model({"margins": case["margins"], "copula": case["copula"]})
+            if not model.jump_of_finite_variation():
+                return [Violation("REJECTED", "infinite-variation copula (constructor cost)")]
+            grid = build_copula_grid(case, model)
+            if int(np.prod([len(a) for a in grid.axes])) > (125 if coupled else 600):
+                return [Violation("REJECTED", "level-0 grid outside the per-case bound")]
+            method = SamplingMethod[case["method"]]
+            obj = (CouplingProcessLevyCopula(levy_copula_model=model, grid=grid, method=method) if coupled
+                   else MarkovChainLevyCopula(levy_copula_model=model, grid=grid, method=method))
+        else:
+            model = build_model(case["model"])
+            if kind == "levy-1d":
+                if case["model"]["family"] in ("cgmy", "vg"):
+                    return [Violation("REJECTED", "no direct simulation of the jumps of this family")]
+                obj = LevyProcess(model)
+            else:
+                grid = build_grid(case["grid"], model, case["model"])
+                if len(grid.axes[0]) > 1200:
+                    return [Violation("REJECTED", "axis outside the per-case bound")]
+                method = SamplingMethod[case["method"]]
+                obj = (CouplingMarkovChain(model=model, method=method, grid=grid) if coupled
+                       else MarkovChainProcess(model=model, method=method, grid=grid))
+    except GridRejected as e:
+        return [Violation("REJECTED", str(e))]
+    obj.initialisation(product)
+    if coupled:
+        obj.pre_computation(1, product)
+        obj.next_level(1, [c03._PM(obj.fine_process.deterministic_path)], product)
+    np.random.seed(case["seed"])
+    obj.pre_computation(n, product)
+    ps = (obj.fine_process if coupled else obj)._path_simulation
+    tag = f"C08/pre-drawn/{kind}"
+    detail = f"dates={tg.tolist()} case={ {k: v for k, v in case.items() if k not in ('grid',)} }"
+    rows = [np.asarray(r, dtype=float) for r in ps._brownian_increments]
+    counts = [list(r) for r in ps._poisson_rv]
+    if len(rows) != n or len(counts) != n:
+        out.append(Violation(f"{tag}/not-one-pre-drawn-row-per-path", f"{len(rows)} Brownian and {len(counts)} Poisson rows "
+                                                                   f"for {n} paths; {detail}"))
+        return out
+    if len({r.tobytes() for r in rows}) != n:
+        out.append(Violation(f"{tag}/two-paths-share-their-pre-drawn-brownian-row", detail))
+        return out
+    # coefficient applied to the row: read from a second, freshly built object of the same kind where there is one
+    if kind == "levy-1d":
+        coefs = [np.atleast_2d(float(model.diffusion_coefficient()))]
+    elif kind == "chain-1d":
+        coefs = [np.atleast_2d(float(obj.equivalent_diffusion_coefficient))]
+    elif kind == "coupling-1d":
+        coefs = [np.atleast_2d(float(obj.equivalent_diffusion_coefficient_fine)),
+                 np.atleast_2d(float(obj.equivalent_diffusion_coefficient_coarse))]
+    elif kind == "chain-copula":
+        coefs = [np.asarray(ps.diffusion_matrix, dtype=float)]
+    else:
+        coefs = [np.asarray(obj._diffusion_matrix_h, dtype=float), np.asarray(obj._diffusion_matrix_2h, dtype=float)]
+    if not any(np.abs(c).max() > 0 for c in coefs):
+        return [Violation("REJECTED", "no diffusion part: the Brownian rows do not show in the path")]
+    out.append(Violation("NONTRIVIAL"))
+    sim = obj.simulate_one_path_with_coupling if coupled else obj.simulate_one_path
+    for i in range(n):
+        path = sim()
+        left = (len(ps._brownian_increments), len(ps._poisson_rv))
+        if left != (n - i - 1, n - i - 1):
+            out.append(Violation(f"{tag}/pre-drawn-rows-not-popped-once-per-path",
+                                 f"after path {i}: {left} rows left of {n}; {detail}"))
+            return out
+        diff = np.asarray(path.diffusion_path, dtype=float)
+        ax = _time_axis(diff, nb)
+        if ax is None:
+            out.append(Violation(f"{tag}/diffusion-path-shape", f"{diff.shape} for {nb} intervals; {detail}"))
+            return out
+        inc = np.moveaxis(np.diff(diff, axis=ax), ax, -1)  # (..., nb)
+        comps = inc.reshape((len(coefs), -1, nb)) if coupled else inc.reshape((1, -1, nb))
+        w = rows[i].reshape(-1, nb)
+        for c, comp in zip(coefs, comps):
+            expect = (c @ w) * sq
+            if comp.shape != expect.shape or not np.allclose(comp, expect, rtol=1e-10, atol=1e-14 * max(1.0, np.abs(expect).max())):
+                out.append(Violation(f"{tag}/path-not-driven-by-its-own-pre-drawn-row",
+                                     f"path {i}: diffusion increments {comp.tolist()} vs coefficient x row {i} x sqrt(dt) "
+                                     f"{expect.tolist()}; {detail}"))
+                return out
+    return out
+
+
+def classify_predrawn(case):
+    d = case["dates"]
+    return [case["kind"], "monthly-asian" if d["asian"] else f"T={d['T']}", f"paths={case['paths']}"], False
+
+
+def enum_large_predraw(tier):
+    # one pass whose pre-drawn normals number more than 2^21 (weekly / daily averages of tens of thousands of paths)
+    cases = [{"paths": 42000, "disc": "WEEKLY", "T": 1.0}]
+    if tier != "quick":
+        cases += [{"paths": 6100, "disc": "DAILY", "T": 1.0}, {"paths": 90000, "disc": "MONTHLY", "T": 2.0},
+                  {"paths": 130000, "disc": "WEEKLY", "T": 0.5}]
+    return cases
+
+
+def body_large_predraw(case):
+    from rpylib.process.levyprocess import LevyProcess
+    from rpylib.product.payoff import Forward
+    from rpylib.product.product import Product
+    from rpylib.product.underlying import Asian, Discretisation
+
+    model = build_model({"family": "bs", "params": {"sigma": 0.2}, "exp": {"spot": 100.0, "r": 0.02, "d": 0.0}})
+    proc = LevyProcess(model)
+    product = Product(payoff_underlying=Asian(Discretisation[case["disc"]]), payoff=Forward(strike=1.0), maturity=case["T"])
+    proc.initialisation(product)
+    np.random.seed(5)
+    n = case["paths"]
+    proc.pre_computation(n, product)
+    rows = proc._path_simulation._brownian_increments
+    nb = len(product.times_grid()) - 1
+    out = [Violation("NONTRIVIAL")] if n * nb >= 2 ** 21 else []
+    if len(rows) != n:
+        return out + [Violation("C08/pre-drawn/large-pass/not-one-row-per-path", f"{len(rows)} rows for {n} paths; {case}")]
+    first = np.array([r[0][0] for r in rows]) if isinstance(rows[0][0], (list, tuple, np.ndarray)) else np.array([r[0] for r in rows])
+    last = np.array([np.ravel(r)[-1] for r in rows])
+    if len(np.unique(first)) != n or len(np.unique(last)) != n:
+        out.append(Violation("C08/pre-drawn/large-pass/two-paths-share-their-pre-drawn-brownian-row",
+                             f"{n - len(np.unique(first))} repeated rows among {n} ({n * nb} normals); {case}"))
+    return out
+
+
+def classify_large_predraw(case):
+    return [case["disc"], f"paths={case['paths']}"], False
 
 
 # ------------------------------------------------------------------------------------ multilevel engine, scripted
@@ -622,6 +824,16 @@ SUBCHECKS = [
                   "advancing: seeded runs bit-identical, samples pairwise distinct, no seed value applied again "
                   "after samples were produced, pre-drawn rows all consumed",
              strategy=strat_std, budget={"quick": 288, "thorough": 1500}, shards={"quick": 16, "thorough": 16}),
+    SubCheck("pre-drawn-variates", body_predrawn, classify_predrawn,
+             rule="fixed-date simulators (direct Levy, 1-d chain, copula chain d=2,3, 1-d coupling and copula coupling at "
+                  "level 1) x payoff dates (one maturity or monthly averaging dates) x 2..6 paths: one pre-drawn Brownian "
+                  "and Poisson row per path, rows pairwise distinct, popped once per path, and the diffusion part of path i "
+                  "(fine and coarse) is the coefficient times row i times sqrt(dt); non-trivial = non-zero diffusion",
+             strategy=strat_predrawn, budget={"quick": 320, "thorough": 1600}, shards={"quick": 16, "thorough": 16}),
+    SubCheck("pre-drawn-variates-large-pass", body_large_predraw, classify_large_predraw,
+             rule="one pre-computation of more than 2^21 normals (tens of thousands of paths of an average over weekly / "
+                  "daily / monthly dates): one row per path, rows pairwise distinct",
+             enumerate=enum_large_predraw, shards={"quick": 1, "thorough": 4}, exhaustive=False),
     SubCheck("multilevel-engine-scripted", body_mlmc, classify_mlmc,
              rule="multilevel engine on a scripted coupling whose samples consume numpy.random: seeded runs "
                   "identical ledgers, no two samples (across paths, passes, levels) drawn from the same variates, no "
